@@ -31,7 +31,7 @@ INFO = {
   ],
   "undecided": [
     "initial buffer content after make_data / reset_data (D1, D2: genuine defects recorded in DESIGN.md, not repaired)",
-    "cubic (Catmull-Rom) interpolation weights; vector-valued sensor buffers (_history_read_vector / _history_insert_vector) and the sensor interval logic",
+    "cubic interpolation beyond linear precision (the spline's end-segment behaviour and its exact weights on curved data); vector-valued sensor buffers (_history_read_vector / _history_insert_vector) and the sensor interval logic",
     "out-of-order inserts (time older than the newest sample) and termination of the binary search",
   ],
 }
@@ -111,7 +111,7 @@ def g_read(tier):
   obs = []
   L = lambda i: Lb("buf", i)
   V = lambda i: Vb("buf", i)
-  for interp in (0, 1):
+  for interp in (0, 1, 2):
     rec = _Rec(FIND, requires=C[FIND].requires, ensures=C[FIND].ensures)
     R = Run(READ, contracts={FIND: rec}, setup=_cursor_setup, pre=["n >= 1", "cursor == int(buf[worldid, buf_offset + 1]) and 0 <= cursor and cursor < n", f"interp == {interp}"])
     tag = f"_history_read_scalar[interp={interp}]"
@@ -129,6 +129,17 @@ def g_read(tier):
     interior = f"t > {L(0)} + 1e-6 and t < {L('n - 1')} - 1e-6"
     obs.append(R.obligation(f"{tag}#interior.bracket", f"implies({interior}, 0 <= j and j < n - 1 and {L('j')} < t and t <= {L('j + 1')})", meta={"goal": "strictly between oldest and newest: the index from find_index brackets t, L(j) < t <= L(j+1)"}))
     obs.append(R.obligation(f"{tag}#interior.exact_sample", f"implies({interior} and abs(t - {L('j + 1')}) < 1e-6, result == {V('j + 1')})", meta={"goal": "within 1e-6 of the bracket's upper sample time: that sample's value"}))
+    if interp == 2:
+      # cubic (Catmull-Rom with finite-difference tangents on the actual, possibly uneven, sample times): stated by
+      # what characterises it rather than by its formula -- LINEAR PRECISION: if the four samples around t lie on a
+      # straight line v = a*time + b, the result is a*t + b (a uniform-grid simplification of the tangents breaks this
+      # as soon as the sample times are unevenly spaced)
+      R.var("a", "float")
+      R.var("b", "float")
+      line = " and ".join(f"{V(x)} == a*{L(x)} + b" for x in ("j - 1", "j", "j + 1", "j + 2"))
+      mono = f"{L('j - 1')} < {L('j')} and {L('j')} < {L('j + 1')} and {L('j + 1')} < {L('j + 2')}"
+      obs.append(R.obligation(f"{tag}#interior.linear_precision", f"implies({interior} and not (abs(t - {L('j + 1')}) < 1e-6) and 1 <= j and j + 2 <= n - 1 and {mono} and {line}, result == a*t + b)", meta={"goal": "cubic interpolation reproduces straight lines exactly, for any (uneven) spacing of the four surrounding samples", "timeout_ms": 60000}))
+      continue
     if interp == 0:
       want = V("j")
       what = "zero-order hold: the value of the bracket's lower sample V(j)"
